@@ -642,7 +642,7 @@ def possible_types_for_string_value(string: str) -> PyDataTypeOrSeq:
     if ':' not in string:
         possible_types = []
 
-        if string.isnumeric():
+        if string.isdecimal():
             possible_types.append(PyDataType.INT)
 
         elif is_float(string):
